@@ -154,6 +154,7 @@ func cmdRun(args []string) {
 	trace := fs.Bool("trace", false, "trace instructions")
 	nomerge := fs.Bool("nomerge", false, "disable call merging")
 	eager := fs.Bool("eager", false, "decide feasibility at every branch")
+	noprune := fs.Bool("noprune", false, "do not prune infeasible outcomes before merging")
 	verbose := fs.Bool("v", false, "verbose")
 	slog := fs.String("solverlog", "", "write SMT to file")
 	solver := fs.String("solver", "z3-new", "z3|z3-new|cvc5")
@@ -176,6 +177,7 @@ func cmdRun(args []string) {
 	cfg.Trace = *trace
 	cfg.NoMerge = *nomerge
 	cfg.EagerFeas = *eager
+	cfg.NoPrune = *noprune
 	cfg.SolverLog = *slog
 	cfg.SolverName = *solver
 	for k, v := range parseBounds(*bounds) {
